@@ -134,7 +134,7 @@ Fixpoint run_writes (cidx0 : bool) (s : state) (ws : list (req * resp)) : option
       if list_eqb resp_eqb resps [r] then run_writes cidx0 s1 ws' else None
   end.
 
-Definition sched_check (c : sched_case) : bool :=
+Definition sched_check_core (c : sched_case) : bool :=
   match run_steps (sc_cidx0 c) (kinit (sc_d0 c) (store_of (sc_init c))) (sc_progs c) (sc_d0 c) (sc_steps c) with
   | None => false
   | Some (s, queues) =>
@@ -148,6 +148,25 @@ Definition sched_check (c : sched_case) : bool :=
       && (sc_final_committed c =? sc_marker c)
       && negb (sc_stalled c)
   end.
+
+(* ---------- validity of a case (what the generator guarantees), decidable and part of the check ---------- *)
+
+Fixpoint nodup_keys (l : list N) : bool :=
+  match l with
+  | [] => true
+  | x :: l' => negb (mem_N x l') && nodup_keys l'
+  end.
+
+Definition sched_validb (c : sched_case) : bool :=
+  nodup_keys (map fst (sc_progs c)) && nodup_keys (map fst (sc_init c))
+  && forallb (fun kk => wf_kstateb (sc_d0 c) (snd kk)) (sc_init c).
+
+Definition sched_valid (c : sched_case) : Prop :=
+  NoDup (map fst (sc_progs c)) /\ NoDup (map fst (sc_init c)) /\
+  Forall (fun kk => wf_kstateb (sc_d0 c) (snd kk) = true) (sc_init c).
+
+(* an invalid case counts as a mismatch: every case that passes the check is covered by the theorems *)
+Definition sched_check (c : sched_case) : bool := sched_validb c && sched_check_core c.
 
 (* ---------- request records, from the implementation's side of the case only ---------- *)
 
@@ -167,7 +186,8 @@ Fixpoint emit (t : tid) (i : nat) (ts : tstat) (resps : list resp) : tstat * lis
   | [] => (ts, [])
   | r :: resps' =>
       match ts_queue ts with
-      | [] => (ts, [])      (* more responses than requests: flagged by records_ok *)
+      | [] => ({| ts_queue := []; ts_inv := Some i; ts_commit := None; ts_hold := None; ts_inj := false |}, [])
+                            (* more responses than requests: flagged by records_complete *)
       | q :: queue' =>
           let rec_ := {| rr_t := t; rr_q := q; rr_resp := r;
                          rr_inv := match ts_inv ts with Some j => j | None => i end;
@@ -389,7 +409,29 @@ Definition compact_key (R : N) (obs : option (N * bool)) (ks : kstate) : kstate 
               end;
      k_vers := filter (fun p => negb (collectable R (k_vers ks) p)) (k_vers ks) |}.
 
+(* validity of a compaction case: the initial key state is well-formed, every write is on key 0, the compaction
+   revision is not above the revision the node had reached when the case started *)
+Definition compact_validb (c : compact_case) : bool :=
+  wf_kstateb (cc_d0 c) (cc_init c) && forallb (fun qr => req_key (fst qr) =? 0) (cc_writes c)
+  && (cc_R c <=? cc_d0 c).
+
+(* the two halves of compact_ok *)
+Definition compact_final_ok (c : compact_case) : bool :=
+  forallb (fun qr => match qr with
+                     | (RqCreate _ v, RespCreate rev true) =>
+                         opt_eqb idx_eqb (k_idx (cc_final c)) (Some (rev, false))
+                         && opt_eqb beqb (ver_get rev (k_vers (cc_final c))) (Some v)
+                     | _ => true
+                     end) (cc_writes c).
+Definition compact_probes_ok (c : compact_case) : bool :=
+  forallb (fun qr => match qr with
+                     | (RqCreate _ v, RespCreate rev true) =>
+                         opt_eqb kvr_eqb (cc_get c) (Some (v, rev)) && cc_update_ok c && cc_create_refused c
+                     | _ => true
+                     end) (cc_writes c).
+
 Definition compact_check (c : compact_case) : bool :=
+  compact_validb c &&
   match run_writes (cc_cidx0 c) (kinit (cc_d0 c) (fun k => if k =? 0 then cc_init c else k_empty)) (cc_writes c) with
   | None => false
   | Some s => kstate_eqb (compact_key (cc_R c) (k_idx (cc_init c)) (kv s 0)) (cc_final c)
@@ -419,10 +461,24 @@ Record proxy_case := {
 
 Definition is_error (r : resp) : bool := match r with RespError => true | _ => false end.
 
-(* the leader executes the request once; the client is told the outcome or that it is unknown *)
+(* validity of a proxy case: the request is on key 0, the initial key state is well-formed, no live stored value
+   and no request value equals the deletion marker (finding C03-F1) *)
+Definition no_marker_kstateb (ks : kstate) : bool :=
+  match k_idx ks with
+  | Some (r, false) => forallb (fun p => negb ((fst p =? r) && beqb (snd p) tombstone)) (k_vers ks)
+  | _ => true
+  end.
+Definition req_val_okb (q : req) : bool :=
+  match q with RqCreate _ v | RqUpdate _ v _ => negb (beqb v tombstone) | _ => true end.
+Definition proxy_validb (c : proxy_case) : bool :=
+  (req_key (px_req c) =? 0) && wf_kstateb (px_d0 c) (px_init c) && no_marker_kstateb (px_init c) && req_val_okb (px_req c).
+Definition is_idle (p : pc) : bool := match p with PIdle => true | _ => false end.
+
+(* the leader executes the request once (and finishes it); the client is told the outcome or that it is unknown *)
 Definition proxy_check (c : proxy_case) : bool :=
+  proxy_validb c &&
   let '(s1, _, resps) := run_to_response true 8 (kinit (px_d0 c) (fun k => if k =? 0 then px_init c else k_empty)) [px_req c] in
-  kstate_eqb (kv s1 0) (px_final c)
+  kstate_eqb (kv s1 0) (px_final c) && is_idle (thr s1 0)
   && (is_error (px_resp c) || list_eqb resp_eqb resps [px_resp c]).
 
 (* a failed condition is reported only if the key really differed from the expectation, and then nothing was written *)
@@ -445,8 +501,4 @@ Definition c01_oracle (c : c01_case) : option N :=
   | C1Proxy c => ok_if (proxy_ok c)
   end.
 
-(* ---------- validity of a case (what the generator guarantees) ---------- *)
 
-Definition sched_valid (c : sched_case) : Prop :=
-  NoDup (map fst (sc_progs c)) /\ NoDup (map fst (sc_init c)) /\
-  Forall (fun kk => wf_kstateb (sc_d0 c) (snd kk) = true) (sc_init c).
